@@ -607,6 +607,9 @@ func polyMul(a, b poly) poly {
 	return out
 }
 
+// polyWhy: reason of the last polyOf failure caused by narrow arithmetic (reporting only).
+var polyWhy string
+
 // polyOf evaluates an integer expression to a polynomial over the atoms named by atom(v) (through + - *,
 // conversions, constants and single-assignment cells); ok is false when anything else occurs.
 func polyOf(v ssa.Value, atom func(ssa.Value) string, depth int) (poly, bool) {
@@ -631,6 +634,24 @@ func polyOf(v ssa.Value, atom func(ssa.Value) string, depth int) (poly, bool) {
 		b, ok2 := polyOf(x.Y, atom, depth+1)
 		if !ok1 || !ok2 {
 			return nil, false
+		}
+		// arithmetic in a type narrower than 64 bits is arithmetic modulo 2^k: with a configured value as operand
+		// the result is not the polynomial (uint8(255) + 1 == 0)
+		if bt, isB := x.Type().Underlying().(*types.Basic); isB {
+			switch bt.Kind() {
+			case types.Int8, types.Int16, types.Int32, types.Uint8, types.Uint16, types.Uint32:
+				nonConst := false
+				for m := range a {
+					nonConst = nonConst || m != ""
+				}
+				for m := range b {
+					nonConst = nonConst || m != ""
+				}
+				if nonConst {
+					polyWhy = "the sub-expression " + x.String() + " is computed in " + bt.Name() + " and wraps around for large configured values"
+					return nil, false
+				}
+			}
 		}
 		switch x.Op {
 		case token.ADD, token.SUB:
